@@ -45,3 +45,57 @@ package metadatapart
 //@ mode effects
 //@ effect[C03:stays-in-its-transaction] every call passing database.Tx($t) where $t == tx
 //@ effect[C03:uses-its-sql-transaction] every call passing (*sql.Tx)($s) needs before tx.SqlTx() -> ($r) where $s == $r
+
+// C11. CopyObject: what is written for the destination follows the S3 directives. Metadata directive REPLACE: content
+// type and metadata are exactly the request's (cleared when the request supplies none); COPY (default): the source's,
+// except the website redirect location, which is never copied and only ever comes from the request. Tagging directive
+// REPLACE: the request's tag set; COPY: the source's. The storage class is the request's, never the source's.
+// (srcObject is the closure's local: the source row the copy read.)
+//@ func (*metadataPartStorage).CopyObject$1
+//@ mode effects
+//@ trust nonnil metadatastore.MetadataStore
+//@ effect[C11:copy-replace-metadata] every mbs.metadataStore.PutObject(_, _, $b, $o, _) if specReplaceMetadata(opts)
+//@     where $o != nil && specSameOpt($o.ContentType, opts.ContentType) &&
+//@         (opts.Metadata != nil ==> specSameSystemMetadata($o.Metadata, *opts.Metadata) && same($o.Metadata.UserMetadata, opts.Metadata.UserMetadata)) &&
+//@         (opts.Metadata == nil ==> specNoSystemMetadata($o.Metadata) && len($o.Metadata.UserMetadata) == 0)
+//@ effect[C11:copy-keeps-source-metadata] every mbs.metadataStore.PutObject(_, _, $b, $o, _) if !specReplaceMetadata(opts)
+//@     where $o != nil && srcObject != nil && specSameOpt($o.ContentType, srcObject.ContentType) &&
+//@         specSameSystemMetadata($o.Metadata, srcObject.Metadata) && same($o.Metadata.UserMetadata, srcObject.Metadata.UserMetadata)
+//@ effect[C11:copy-redirect-only-from-request] every mbs.metadataStore.PutObject(_, _, $b, $o, _)
+//@     where $o != nil && specSameOpt($o.Metadata.WebsiteRedirectLocation, specRequestRedirect(opts))
+//@ effect[C11:copy-tagging-directive] every mbs.metadataStore.PutObject(_, _, $b, $o, _)
+//@     where $o != nil && srcObject != nil && (specReplaceTags(opts) ==> same($o.Tags, opts.Tags)) && (!specReplaceTags(opts) ==> same($o.Tags, srcObject.Tags))
+//@ effect[C11:copy-class-only-from-request] every mbs.metadataStore.PutObject(_, _, $b, $o, _)
+//@     where $o != nil && (opts == nil ==> $o.StorageClass == nil) && (opts != nil ==> specSameOpt($o.StorageClass, opts.StorageClass))
+//@ effect[C11:copy-writes-destination] every mbs.metadataStore.PutObject(_, _, $b, $o, _) where $b == dstBucket && $o != nil && $o.Key == dstKey
+
+// C11. PutObject hands the metadata store exactly the supplied content type, metadata, tags and storage class
+// (absent / empty where the request supplied none).
+//@ func (*metadataPartStorage).PutObject$1
+//@ mode effects
+//@ effect[C11:put-carries-supplied-values] every mbs.metadataStore.PutObject(_, _, $b, $o, _)
+//@     where $o != nil && $b == bucketName && $o.Key == key && specSameOpt($o.ContentType, contentType) &&
+//@         (opts == nil ==> $o.StorageClass == nil && len($o.Tags) == 0) &&
+//@         (opts != nil ==> specSameOpt($o.StorageClass, opts.StorageClass) && same($o.Tags, opts.Tags)) &&
+//@         (opts != nil && opts.Metadata != nil ==> specSameSystemMetadata($o.Metadata, *opts.Metadata) &&
+//@             specSameOpt($o.Metadata.WebsiteRedirectLocation, opts.Metadata.WebsiteRedirectLocation) && same($o.Metadata.UserMetadata, opts.Metadata.UserMetadata)) &&
+//@         (opts == nil || opts.Metadata == nil ==> specNoSystemMetadata($o.Metadata) && $o.Metadata.WebsiteRedirectLocation == nil && len($o.Metadata.UserMetadata) == 0)
+
+// AppendObject preserves them: what it hands to the metadata store for an existing object carries that object's content
+// type, metadata, tags and storage class (in a versioning-enabled bucket the metadata store writes a NEW version from
+// exactly this object, so anything missing here is lost).
+//@ func (*metadataPartStorage).AppendObject$1
+//@ mode effects
+//@ effect[C11:append-carries-existing-values] every mbs.metadataStore.AppendObject(_, _, $b, $o, _) if existingObject != nil
+//@     where $o != nil && $b == bucketName && $o.Key == key && specSameOpt($o.ContentType, existingObject.ContentType) &&
+//@         specSameOpt($o.StorageClass, existingObject.StorageClass) && same($o.Tags, existingObject.Tags) &&
+//@         specSameSystemMetadata($o.Metadata, existingObject.Metadata) &&
+//@         specSameOpt($o.Metadata.WebsiteRedirectLocation, existingObject.Metadata.WebsiteRedirectLocation) &&
+//@         same($o.Metadata.UserMetadata, existingObject.Metadata.UserMetadata)
+
+// CreateMultipartUpload hands the metadata store exactly the supplied content type, tags, metadata and storage class.
+//@ func (*metadataPartStorage).CreateMultipartUpload
+//@ mode effects
+//@ effect[C11:create-upload-carries-supplied-values] every mbs.metadataStore.CreateMultipartUpload(_, _, $b, $k, $ct, $cst, $o)
+//@     where $b == bucketName && $k == key && specSameOpt($ct, contentType) && (opts == nil ==> $o == nil) &&
+//@         (opts != nil ==> $o != nil && same($o.Tags, opts.Tags) && $o.Metadata == opts.Metadata && specSameOpt($o.StorageClass, opts.StorageClass))
